@@ -89,15 +89,24 @@ def simpleProgram (src : String) : Bool :=
 def hasSub (s sub : String) : Bool := (s.splitOn sub).length > 1
 
 /-- is the matrix literal defined as `name := [ … ]` stored as a DMatrix (1x1, or more than one row and column)? -/
+def mdBody (body : String) : Bool :=
+  let rows := body.splitOn ";"
+  let r := rows.length
+  let c := (((rows.headD "").splitOn " ").filter (· != "")).length
+  (r == 1 && c == 1) || (r > 1 && c > 1)
+
 def isMD (src name : String) : Bool :=
   match src.splitOn (name ++ " := [") with
-  | _ :: rest :: _ =>
-    let body := (rest.splitOn "]").headD ""
-    let rows := body.splitOn ";"
-    let r := rows.length
-    let c := (((rows.headD "").splitOn " ").filter (· != "")).length
-    (r == 1 && c == 1) || (r > 1 && c > 1)
+  | _ :: rest :: _ => mdBody ((rest.splitOn "]").headD "")
   | _ => false
+
+/-- the same for an operand of the last line `X op Y`: the variable `a` / `b`, or a matrix literal written in place -/
+def operandMD (src : String) (left : Bool) : Bool :=
+  let last := ((src.splitOn "\n").getLast?).getD ""
+  if left then
+    if last.startsWith "[" then mdBody (((last.drop 1).toString.splitOn "]").headD "") else isMD src "a"
+  else
+    if last.endsWith "]" then mdBody ((((last.dropEnd 1).toString.splitOn "[").getLast?).getD "") else isMD src "b"
 
 def runC06 (fields : List String) (obs : String) : String × String × String :=
   let bad := ("bad-case", "bad-case", "-")
@@ -167,7 +176,7 @@ def runC06 (fields : List String) (obs : String) : String × String × String :=
                 if verdict == "ok" then "-"
                 else if b.startsWith "panic:run" then "C06-D3"
                 else if !isErr then (if !hasOp && b == "empty" then "C06-D4" else "-")
-                else if working && cls == "operators" && isMD src "a" && isMD src "b" then "C06-D5"
+                else if working && cls == "operators" && operandMD src true && operandMD src false then "C06-D5"
                 else if working && hasSub src "x = " then "C06-D6"
                 else if working then "-"
                 else if cls == "matrix-literals" && simpleProgram src then "C06-D7"
